@@ -418,9 +418,10 @@ def run(project, chk):
             seen.append((t, v))
             for ext in exts:
                 # not <x>.name.endswith(INFIX+EXT)  or  not <x>.stem.endswith(INFIX)
+                yv = norm_text(y.value) if getattr(y, "value", None) is not None else ""
                 for form in (f".name.endswith({(infix + ext)!r})", f".stem.endswith({infix!r})"):
-                    if t.endswith(form) and v is False:
-                        good = True
+                    if t.endswith(form) and v is False and t[:-len(form)] in (yv, f"Path({yv})", f"pathlib.Path({yv})"):
+                        good = True     # (the test is about the very file that is yielded)
         chk.check(good, "I3", get.short, norm_text(y), project.loc(get.module, y),
                   f"directory-mode yield is under `not name.endswith({(infix + sorted(exts)[0])!r})`: the writer's infix and the reader's filter agree",
                   how=f"guard literals on all paths: {sorted(seen)}",
